@@ -134,3 +134,75 @@ func HarnessC14Programs() {
 		verifAssert(w3.calls == 0 && s1 == "" && b2 == nil, "a failed execution must not hand out partial output (buffered variants)")
 	}
 }
+
+// template shapes x context validity x history: the degenerate shapes (empty, text only, text+comment,
+// one variable, one tag) with a context whose single extra key is a symbolic byte string (valid or not as
+// an identifier - the four variants must agree on it, whatever the rule is), supplied through the call or
+// through the set's globals; then the caller overwrites the bytes ExecuteBytes handed out and renders
+// again: the result of one execution must not alias anything a later execution reads.
+func HarnessC14Shapes() {
+	m := verifParam("m", 2)
+	t := symStringLen(0, m)
+	verifAssume(noDelims(t))
+	verifAssume(len(t) == 0 || t[len(t)-1] != '{')
+	shape := verifChoice(6)
+	var src, full string
+	switch shape {
+	case 0:
+		src, full = t, t
+	case 1:
+		src, full = "T"+t, "T"+t
+	case 2:
+		src, full = "T"+t+"{# c #}", "T"+t
+	case 3:
+		src, full = "{{ s }}", "S"
+	case 4:
+		src, full = "T"+t+"{{ s }}", "T"+t+"S"
+	default:
+		src, full = "{% if s %}T"+t+"{% endif %}", "T"+t
+	}
+	verifObserve("src", src)
+	key := symStringLen(0, 2)
+	verifAssume(key != "s") // the one name the shapes read
+	verifObserve("key", key)
+	viaGlobals := verifChoice(2) == 1
+	set := NewSet("verif", &memLoader{})
+	ctx := Context{"s": "S"}
+	if viaGlobals {
+		set.Globals[key] = 1
+	} else {
+		ctx[key] = 1
+	}
+	tpl, err := set.FromString(src)
+	verifAssert(err == nil, "shape must compile")
+	s1, e1 := tpl.Execute(ctx)
+	b2, e2 := tpl.ExecuteBytes(ctx)
+	w3 := &c14Writer{}
+	e3 := tpl.ExecuteWriter(ctx, w3)
+	w4 := &c14Writer{}
+	e4 := tpl.ExecuteWriterUnbuffered(ctx, w4)
+	verifObserve("fails", e1 != nil)
+	verifAssert((e1 != nil) == (e2 != nil) && (e1 != nil) == (e3 != nil) && (e1 != nil) == (e4 != nil), "the four variants must fail in the same cases (context validity)")
+	if e1 != nil {
+		verifAssert(w3.calls == 0 && s1 == "" && b2 == nil, "a failed execution must not hand out partial output (buffered variants)")
+		verifAssert(c14IsPrefix(string(w4.data), full), "ExecuteWriterUnbuffered wrote something that is not a leading part of the successful output")
+		return
+	}
+	verifAssert(s1 == full, "Execute output of the shape")
+	verifAssert(string(b2) == full && string(w3.data) == full && string(w4.data) == full, "the four variants must produce the same bytes")
+	// the caller owns what it was given: scribble over it and over the writer's copy, render again
+	for i := range b2 {
+		b2[i] = '#'
+	}
+	for i := range w3.data {
+		w3.data[i] = '#'
+	}
+	s5, e5 := tpl.Execute(ctx)
+	b6, e6 := tpl.ExecuteBytes(ctx)
+	w7 := &c14Writer{}
+	e7 := tpl.ExecuteWriter(ctx, w7)
+	w8 := &c14Writer{}
+	e8 := tpl.ExecuteWriterUnbuffered(ctx, w8)
+	verifAssert(e5 == nil && e6 == nil && e7 == nil && e8 == nil, "second round of executions must succeed like the first")
+	verifAssert(s5 == full && string(b6) == full && string(w7.data) == full && string(w8.data) == full, "the four variants must produce the same bytes after the caller overwrote an earlier result")
+}
